@@ -53,3 +53,11 @@ Definition loop_case (M : module) : Z :=
   let withloop := filter (fun fn => match straight_static M fn with Some (l, _, _, _, _, _) => has_while l | None => false end) e2e in
   let withdo := filter (fun fn => match straight_static M fn with Some (l, _, _, _, _, _) => has_do l | None => false end) e2e in
   (Z.of_nat (length (m_funcs M)) * 1000000 + Z.of_nat (length e2e) * 10000 + Z.of_nat (length withloop) * 100 + Z.of_nat (length withdo))%Z.
+
+(** the typed-level fragment of [loop_function_correct] (while, do and for loops at the top level):
+    10000 * functions + 100 * inside + those among them with a for loop *)
+Definition has_tfor (l : list tstmt) : bool := existsb (fun s => match s with TFor _ _ _ _ => true | _ => false end) l.
+Definition loop_lower_case (M : module) : Z :=
+  let inside := filter (fun fn => match straight_static M fn with Some (_, _, _, _, tl, te) => forallb (wtop_ok flow_depth) tl && tpure te | None => false end) (m_funcs M) in
+  let withfor := filter (fun fn => match straight_static M fn with Some (_, _, _, _, tl, _) => has_tfor tl | None => false end) inside in
+  (Z.of_nat (length (m_funcs M)) * 10000 + Z.of_nat (length inside) * 100 + Z.of_nat (length withfor))%Z.
